@@ -3,6 +3,7 @@ package main
 // Models that go beyond plain externals: ghost state (hash stream), sort facts, csv reader, etc.
 
 import (
+	"strings"
 	"fmt"
 	"go/types"
 
@@ -14,6 +15,30 @@ type ghostFn func(ev *Evaluator, args []SVal) SVal
 func registerGhosts(fx *FnCtx) {
 	for _, g := range ghostInits {
 		g(fx)
+	}
+	// feedsLeft(): how many more feeds the journal's source will yield (ghost; a source is finite)
+	fx.ghostFuncs["feedsLeft"] = func(ev *Evaluator, args []SVal) SVal {
+		return SVal{v: Val{t: ev.st.ghost["srcrem"]}, typ: intT}
+	}
+	fx.ghostFuncs["pathJoin"] = func(ev *Evaluator, args []SVal) SVal {
+		fx.ufun("path_join", []string{"String", "String"}, "String")
+		return SVal{v: Val{t: fmt.Sprintf("(path_join %s %s)", args[0].v.t, args[1].v.t)}, typ: stringT}
+	}
+	fx.ghostFuncs["readable"] = func(ev *Evaluator, args []SVal) SVal {
+		fx.ufun("fs_readable", []string{"String"}, "Bool")
+		return SVal{v: Val{t: "(fs_readable " + args[0].v.t + ")"}, typ: boolT}
+	}
+	fx.ghostFuncs["fileContent"] = func(ev *Evaluator, args []SVal) SVal {
+		fx.ufun("fs_content", []string{"String"}, "String")
+		return SVal{v: Val{t: "(fs_content " + args[0].v.t + ")"}, typ: stringT}
+	}
+	fx.ghostFuncs["pbOK"] = func(ev *Evaluator, args []SVal) SVal {
+		fx.ufun("pb_ok", []string{"String"}, "Bool")
+		return SVal{v: Val{t: "(pb_ok " + args[0].v.t + ")"}, typ: boolT}
+	}
+	fx.ghostFuncs["bytesOf"] = func(ev *Evaluator, args []SVal) SVal {
+		fx.s.global("bytes_of", "(declare-fun bytes_of (Int) String)")
+		return SVal{v: Val{t: "(bytes_of (sobj " + args[0].v.t + "))"}, typ: stringT}
 	}
 	// hash stream ghost: stream() is the sequence of tokens emitted so far, pending() whether the buffer is non-empty
 	fx.ghostFuncs["stream"] = func(ev *Evaluator, args []SVal) SVal {
@@ -60,6 +85,7 @@ func initGhostState(fx *FnCtx, st *State) {
 	st.ghost["csvrem"] = fx.s.declare("csvrem0", "(Array Ref Int)")
 	fx.s.global("Stream", "(declare-datatypes ((Stream 0)) (((snil) (sfix (sprev Stream) (stag Int) (sval Int)) (sraw (rprev Stream) (rstr String)))))")
 	fx.s.global("fixedsize", "(declare-fun fixedsize (Int) Bool)")
+	st.ghost["srcrem"] = fx.s.declare("srcrem0", "Int")
 	st.ghost["hashL"] = fx.s.declare("hashL0", "Stream")
 	st.ghost["hashP"] = fx.s.declare("hashP0", "Bool")
 }
@@ -68,6 +94,8 @@ func ghostSortOf(k string) string {
 	switch k {
 	case "csvrem":
 		return "(Array Ref Int)"
+	case "srcrem":
+		return "Int"
 	case "hashL":
 		return "Stream"
 	case "hashP":
@@ -113,11 +141,32 @@ func (fr *Frame) extraExternal(ins ssa.Instruction, fn *ssa.Function, c *ssa.Cal
 		st.ghost["hashP"] = "false"
 		return nil, true
 	case "path/filepath.Join":
-		fx.trusted["filepath.Join: a function of its arguments; never panics"] = true
-		return fr.havocResults(c, st), true
-	case "os.ReadDir", "os.ReadFile":
-		fx.trusted[fn.String()+": returns (fresh result, error); the file system is not part of the verified state; never panics"] = true
+		fx.trusted["filepath.Join(a, b): a function of its two arguments; never panics"] = true
+		vals, ok := varargValues(c.Args[0])
+		if !ok || len(vals) != 2 {
+			return fr.havocResults(c, st), true
+		}
+		fx.ufun("path_join", []string{"String", "String"}, "String")
+		return []Val{{t: fmt.Sprintf("(path_join %s %s)", fr.val(vals[0]).t, fr.val(vals[1]).t)}}, true
+	case "os.ReadFile":
+		fx.trusted["os.ReadFile(p): the file system does not change during a replay: the error is nil iff fs_readable(p), the content is fs_content(p) in a fresh slice; never panics"] = true
+		fx.ufun("fs_readable", []string{"String"}, "Bool")
+		fx.ufun("fs_content", []string{"String"}, "String")
+		fx.s.global("bytes_of", "(declare-fun bytes_of (Int) String)")
+		pth := args[0].t
+		ref := fx.allocRef(st, "0")
+		n := fmt.Sprintf("(str.len (fs_content %s))", pth)
+		sl := fx.s.define("filebytes", "Slice", fmt.Sprintf("(ite (fs_readable %s) (mkslice (obj %s) 0 %s %s) nilslice)", pth, ref, n, n))
+		fx.s.assume(st.guard, fmt.Sprintf("(= (bytes_of (obj %s)) (fs_content %s))", ref, pth))
+		return []Val{{t: sl}, {t: fx.errVal(st, "(fs_readable "+pth+")")}}, true
+	case "os.ReadDir":
+		fx.trusted["os.ReadDir: returns (fresh slice of non-nil entries, error); never panics"] = true
 		res := fr.havocResults(c, st)
+		// entries are non-nil interface values
+		et := c.Signature().Results().At(0).Type().Underlying().(*types.Slice).Elem()
+		key, srt := fx.tm.heapKey(et)
+		h := fx.heap(st, key, srt)
+		fx.s.assume(st.guard, fmt.Sprintf("(forall ((k Int)) (! (=> (and (<= 0 k) (< k (slen %s))) (not (= (select %s (elemref %s k)) niliface))) :pattern ((elemref %s k))))", res[0].t, h, res[0].t, res[0].t))
 		return res, true
 	case "(*encoding/csv.Reader).Read":
 		fx.trusted["(*encoding/csv.Reader).Read: returns an error, or a record with exactly csv_nfields(r) >= 1 fields (FieldsPerRecord == 0: as many as the first record); the record is freshly allocated unless r.ReuseRecord is set, in which case it may share its backing array with records returned earlier by r (whose contents are then overwritten); a reader yields finitely many records; nothing else is modified; never panics"] = true
@@ -158,6 +207,15 @@ func (fr *Frame) extraExternal(ins ssa.Instruction, fn *ssa.Function, c *ssa.Cal
 func (fr *Frame) extraInvoke(ins ssa.Instruction, c *ssa.CallCommon, recv Val, args []Val, st *State) ([]Val, bool) {
 	fx := fr.fx
 	it := typeKey(c.Value.Type())
+	if c.Method.Name() == "Next" && strings.HasSuffix(it, "journal.GtfsrtSource") {
+		fx.trusted["GtfsrtSource.Next() (interface contract, assumed for user-supplied sources; DirectoryGtfsrtSource.Next is verified against its own contract): returns nil or a feed; yields finitely many feeds; does not modify memory BuildJournal holds; never panics"] = true
+		res := fr.havocResults(c, st)
+		rem := st.ghost["srcrem"]
+		nrem := fx.s.freshConst("srcrem", "Int")
+		fx.s.assume(st.guard, fmt.Sprintf("(and (>= %s 0) (=> (not (= %s nilref)) (and (> %s 0) (< %s %s))) (=> (= %s nilref) (= %s %s)))", nrem, res[0].t, rem, nrem, rem, res[0].t, nrem, rem))
+		st.ghost["srcrem"] = nrem
+		return res, true
+	}
 	if c.Method.Name() == "Write" && it == "hash.Hash" {
 		fx.trusted["hash.Hash.Write(p): appends p to the hashed byte stream; never fails, never panics"] = true
 		p := args[0].t
